@@ -390,10 +390,28 @@ real_consumed = _real(
     'get_consumed_payload', requires=_real_wf,
     ensures=[('==done', lambda c: z3.And(c.result == _done(c, False), _unchanged(c)))], returns='bytes')
 
+real_get_mpint = _real(
+    'get_mpint', requires=_real_wf,
+    ensures=[('rest==String(x)||rest\'', _read_post(
+        lambda c: z3.Extract(c.old('_packet'), c.old('_idx'), c.new('_idx') - c.old('_idx')))),
+             ('a-whole-string-was-read', lambda c: (lambda x: z3.And(
+                 z3.Extract(c.old('_packet'), c.old('_idx'), c.new('_idx') - c.old('_idx')) == S_(x),
+                 z3.Length(x) < 2 ** 32))(
+                 z3.Extract(c.old('_packet'), c.old('_idx') + 4, c.new('_idx') - c.old('_idx') - 4)))],
+    raises={'PacketDecodeError': True}, returns='int')
+
 real_init = _real(
     '__init__', params=dict(packet='bytes'),
     ensures=[('at-start', lambda c: z3.And(c.new('_packet') == c.arg('packet'), c.new('_idx') == 0,
                                            c.new('_len') == z3.Length(c.arg('packet'))))])
+
+
+# the abstract reader stubs are backed by the Specs above (reported as verified callee contracts, not as assumed)
+for _stub, _spec in ((pkt_new, real_init), (pkt_get_bytes, real_get_bytes), (PKT_STUBS['SSHPacket.get_uint32'],
+                     real_get_uint32), (PKT_STUBS['SSHPacket.get_uint64'], real_get_uint64),
+                     (pkt_get_string, real_get_string), (pkt_check_end, real_check_end),
+                     (pkt_consumed, real_consumed)):
+    _stub.spec_getter = (lambda sp: lambda: sp)(_spec)
 
 
 # ------------------------------------------------------------------ OpenSSH certificates: construct
@@ -1187,6 +1205,7 @@ def pkt_get_mpint(cx):
 
 crypto_verify_stub.modifies = ()
 pkt_get_mpint.modifies = ('_idx', 'ghost_done', 'ghost_rest')
+pkt_get_mpint.spec_getter = lambda: real_get_mpint
 
 
 def _blob_is(c, layout):
